@@ -136,3 +136,40 @@ def rule_R15(ctx, rep, config="c-lib"):
         rep.ok("R15", "check_cached_transition_set/verdicts")
     else:
         rep.violation("R15", "check_cached_transition_set/verdicts", "the validity test does not answer `no' on a mismatch inside its loop and `yes' only after all pairs matched", where=f.where())
+
+
+def rule_R15_exempt(ctx, rep, config="c-lib"):
+    rep.rule("R15-exempt", "check_cached_transition_set compares the origin sets of all start situations except those with distance <= 1 (their origin sets -- the set "
+                           "itself and its predecessor -- are the same by construction): every comparison of a distance read from the set with a constant exempts "
+                           "distances up to 1 only (a larger bound lets a cached set through whose origin two tokens back differs: derivations are lost)")
+    from ..model import strip_int_casts, const_int, resolve_addr, loaded_from
+    p = ctx.prog(config)
+    f = p.fn("check_cached_transition_set")
+    rep.cover(p, [f.name])
+    n = 0
+    for c in f.all_insts():
+        if c.op != "icmp":
+            continue
+        for (x, y) in ((0, 1), (1, 0)):
+            k = const_int(c.ops[y])
+            v = f.inst(strip_int_casts(f, c.ops[x]))
+            if k is None or v is None or v.op != "load":
+                continue
+            pa = resolve_addr(f, v.ops[0])
+            lp = loaded_from(f, pa.root[1]) if pa.root[0] == "val" else None
+            if lp is None or lp.last_field() != "set.dists":
+                continue
+            n += 1
+            pr = c.d["pred"]
+            if x == 1:
+                pr = {"slt": "sgt", "sgt": "slt", "sle": "sge", "sge": "sle"}.get(pr, pr)
+            # the largest distance that is exempt:  d <= k -> k ; d < k -> k - 1 ; d > k (checked) -> k ; d >= k (checked) -> k - 1
+            lim = {"sle": k, "slt": k - 1, "sgt": k, "sge": k - 1}.get(pr)
+            key = "check_cached_transition_set/exempt-distances#%d" % n
+            if lim is not None and lim <= 1:
+                rep.ok("R15-exempt", key, sample={"test": c.where(), "exempt_up_to": lim})
+            else:
+                rep.violation("R15-exempt", key, "start situations with distance up to %s are exempt from the comparison of origin sets (only distances 0 and 1 have the same "
+                              "origin by construction): a cached set is reused although the set it started from differs -- items are missing or spurious, all parses "
+                              "lose translations, the verdict can depend on the lookahead level" % lim, where=c.where(), witness=[c.where()])
+    rep.floor("R15-exempt", "comparisons of a distance with a constant in the validity test", n, 1)
